@@ -7,6 +7,7 @@ import tempfile
 from hypothesis import strategies as st
 
 from ..core import Check, Violation
+from .. import fuzz as _fuzz
 from ..engine import CLI_BIN, EngineDied, Inconclusive, engine, run_cli
 from ..gen import ast as A
 from ..gen import printer as P
@@ -441,4 +442,6 @@ CHECKS = [
     Check("bindings", check_bindings, binding_case, quick=80, thorough=4000),
     Check("deep_nesting_probe", check_probe, enumerate_fn=enum_probe, workers=1),
     Check("regression_sources", check_regression, enumerate_fn=enum_regressions),
+    _fuzz.replay_check(["pipeline", "parse_tree", "lex_tile"]),
 ]
+FUZZ = [("pipeline", 400_000, 1000), ("parse_tree", 500_000, 1000)]
